@@ -61,8 +61,30 @@ SEAMS = [
     "listener/agent/zz_verif_seam.go",
 ]
 
+# yield points (tools/yieldgen): every non-test file of these directories is instrumented (when it has a site)
+YIELD_DIRS = ["services", "server", "listener", "listener/socket", "listener/agent", "listener/canary",
+              "pushers", "pushers/eventbus", "pushers/file", "director/forward"]
+YIELD_SKIP_PREFIX = ("services/ja3",)   # vendored TLS stack
+
 class AnchorError(Exception):
     pass
+
+def yield_sources():
+    out = []
+    dirs = list(YIELD_DIRS)
+    base = os.path.join(REPO, "services")
+    for d in sorted(os.listdir(base)):
+        rel = "services/" + d
+        if os.path.isdir(os.path.join(base, d)) and not rel.startswith(YIELD_SKIP_PREFIX):
+            dirs.append(rel)
+    for d in dirs:
+        full = os.path.join(REPO, d)
+        if not os.path.isdir(full):
+            continue
+        for f in sorted(os.listdir(full)):
+            if f.endswith(".go") and not f.endswith("_test.go"):
+                out.append(d + "/" + f)
+    return out
 
 def generate(outdir):
     outdir = os.path.abspath(outdir)
@@ -87,6 +109,31 @@ def generate(outdir):
     for rel in SEAMS:
         src = os.path.join(VERIF, "seams", rel)
         replace[os.path.join(REPO, rel)] = src
+    # yield points: instrument the (possibly already rewritten) sources
+    tool = os.environ.get("VERIF_YIELDGEN")
+    if tool:
+        import subprocess
+        ydir = os.path.join(outdir, "yield")
+        os.makedirs(ydir, exist_ok=True)
+        args = []
+        names = {}
+        for rel in yield_sources():
+            src = os.path.join(REPO, rel)
+            cur = replace.get(src, src)
+            name = rel.replace("/", "__")
+            names[name] = src
+            args.append("%s=%s" % (cur, name))
+        r = subprocess.run([tool, ydir] + args, capture_output=True, text=True)
+        if r.returncode != 0:
+            raise AnchorError("yieldgen failed: " + r.stderr[-2000:])
+        sites = 0
+        for line in r.stdout.splitlines():
+            _, dst, n = line.split("\t")
+            replace[names[os.path.basename(dst)]] = dst
+            sites += int(n)
+        replace[os.path.join(REPO, "verifyield", "yield.go")] = os.path.join(VERIF, "seams", "verifyield", "yield.go")
+        with open(os.path.join(outdir, "yield-sites.txt"), "w") as f:
+            f.write("%d\n" % sites)
     path = os.path.join(outdir, "overlay.json")
     with open(path, "w") as f:
         json.dump({"Replace": replace}, f, indent=1)
